@@ -216,6 +216,10 @@ async fn send_impl<T, Codec>(
                                         && err.is_item_specific() {
                                             tracing::warn!(%err, "sending over remote channel failed");
                                         }
+
+                                // The channel has failed: values queued behind the failed one must not
+                                // reach the receiver across the gap, they are reported as dropped.
+                                break;
                             }
                         }
                     }
